@@ -1,6 +1,7 @@
 package props
 
 import (
+	"errors"
 	"fmt"
 	"sort"
 	"strings"
@@ -21,6 +22,10 @@ type c11Case struct {
 	Close    string        `json:"close"` // half | full
 	GetMode  string        `json:"get_mode,omitempty"`
 	GetValue string        `json:"get_value,omitempty"`
+	// CloseErr: the transport's Close reports an error although it closes (tls.Conn: close_notify could not be sent)
+	CloseErr bool `json:"close_err,omitempty"`
+	// SecondRun: the server object has been started, stopped and started again before the connection arrives
+	SecondRun bool `json:"second_run,omitempty"`
 }
 
 // evalC11 serves the prefix data[:cut]. The reference is the same server fed only
@@ -38,12 +43,27 @@ func evalC11(c c11Case) *Failure {
 	}
 	what := fmt.Sprintf("pipeline %v cut at byte %d of %d (%s close); %d requests were delivered completely", pc.strings(), c.Cut, len(data), c.Close, k)
 
+	tested := false
 	run := func(stream []byte, full bool, gone bool) (calls []string, frames []resp.Value, out []byte, fl *Failure, inRegistry bool, closes int) {
 		srv, rec := newRecServer()
 		srv.SetAuthCommandHandler(rec)
 		rec.ResultFn = pc.resultFn()
 		conn := connsim.NewPreloaded(1, [][]byte{stream})
 		conn.FullClose = full
+		if tested && c.CloseErr {
+			conn.CloseErr = errors.New("tls: failed to send closeNotify alert (but connection was closed anyway)")
+		}
+		if tested && c.SecondRun {
+			srv.SetPort(0)
+			if err := srv.Start(); err != nil {
+				return nil, nil, nil, failf("harness|start", "%v", err), false, 0
+			}
+			srv.Stop()
+			if err := srv.Start(); err != nil {
+				return nil, nil, nil, failf("harness|start", "%v", err), false, 0
+			}
+			defer srv.Stop()
+		}
 		if gone {
 			conn.WriteFailAfter = 0 // the peer went away right after sending: no reply can be written at all
 		}
@@ -84,6 +104,13 @@ func evalC11(c c11Case) *Failure {
 	}()], false, false)
 	if fl != nil {
 		return fl
+	}
+	tested = true
+	if c.CloseErr {
+		what += "; the transport's Close reports an error"
+	}
+	if c.SecondRun {
+		what += "; second run of the server object"
 	}
 	gotCalls, gotFrames, out, fl, inReg, closes := run(data[:c.Cut], c.Close == "full", c.Close == "gone")
 	if fl != nil {
@@ -130,7 +157,7 @@ func evalC11(c c11Case) *Failure {
 func init() { register("c11.cut", evalC11) }
 
 func TestC11(t *testing.T) {
-	h := newHarness(t, "C11", "pipelines of 1..5 well-formed requests from the grammar (every command, options, binary arguments) x EVERY byte offset of the encoded stream as the point where the stream ends x {half-close, full close after the last byte, peer already gone (every reply write fails)}. "+
+	h := newHarness(t, "C11", "pipelines of 1..5 well-formed requests from the grammar (every command, options, binary arguments) x EVERY byte offset of the encoded stream as the point where the stream ends x {half-close, full close after the last byte, peer already gone (every reply write fails)} x {ordinary transport on a fresh server, transport whose Close reports an error although it closes (as tls.Conn when close_notify cannot be sent), server object started-stopped-started before}. "+
 		"Oracle (differential): the handler-call log and the replies equal those of the same server fed only the requests whose last byte lies before the cut; the loop returns, closes the connection and leaves the registry. "+
 		"Non-trivial: the cut lies strictly inside a request and at least one request precedes it. Distinct = distinct (stream, cut, close mode).")
 	defer h.Finish()
@@ -151,6 +178,13 @@ func TestC11(t *testing.T) {
 		c.GetMode = rapid.SampledFrom([]string{"", cmdspec.GetNull, cmdspec.GetInt}).Draw(rt, "getmode")
 		if c.GetMode == cmdspec.GetInt {
 			c.GetValue = "7"
+		}
+		// per pipeline: an ordinary transport and a fresh server, or a transport whose Close reports an error, or a server object in its second run
+		switch rapid.IntRange(0, 3).Draw(rt, "env") {
+		case 0:
+			c.CloseErr = true
+		case 1:
+			c.SecondRun = true
 		}
 		pc := pipeCase{Reqs: c.Reqs}
 		data, ends := resp.EncodeAll(pc.values())
@@ -195,7 +229,7 @@ func TestC11(t *testing.T) {
 				} else if class == "" {
 					class = "cut-in-body"
 				}
-				h.Col.Case(!isEnd[cut] && k >= 1, append(append([]byte{}, data...), []byte(fmt.Sprintf("|%d|%s|%s", cut, mode, c.GetMode))...), class, "close:"+mode)
+				h.Col.Case(!isEnd[cut] && k >= 1, append(append([]byte{}, data...), []byte(fmt.Sprintf("|%d|%s|%s|%v|%v", cut, mode, c.GetMode, c.CloseErr, c.SecondRun))...), class, "close:"+mode)
 				if h.Col.WantSample() {
 					h.Col.Sample(map[string]any{"requests": pc.strings(), "cut": cut, "stream_len": len(data), "close": mode})
 				}
